@@ -39,6 +39,13 @@ def _region_skip(db):
     """open findings of the unchanged tree, decided on the model that is being rendered (each only while its witness fails)"""
     if region_active('c01_backslash_in_quoted_name') and _control_in_names(db):
         return True      # a quoted name written with \\t, \\n, \\r, \\f was stored with a control character (C01 finding)
+    if region_active('c13_triple_quote_in_text'):
+        texts = [t.note.text for t in db.tables] + [s_.text for s_ in db.sticky_notes] + \
+            [g.note.text for g in db.table_groups if g.note is not None] + ([db.project.note.text] if db.project is not None else [])
+        for tx in texts:
+            for i in range(len(tx) - 2):
+                if tx[i] == "'" and tx[i + 1] == "'" and tx[i + 2] == "'":
+                    return True
     for t in db.tables:
         for c in t.columns:
             if region_active('c02_falsy_default_dropped') and c.default is not None and (c.default == 0 or c.default == '' or c.default is False):
@@ -206,7 +213,8 @@ def api_table_names(i):
         from pydbml.classes import Table, Column, Reference
         nm = TABLE_NAMES[i]
         db = Database()
-        t1 = Table(nm, schema=(nm if a['schema'] else 'public'), alias=(nm + '2' if a['alias'] else None), columns=[Column('id', 'int')])
+        al = [None, nm + '2', nm][a['alias']]        # an alias may equal the bare table name
+        t1 = Table(nm, schema=(nm if a['schema'] else 'public'), alias=al, columns=[Column('id', 'int')])
         t2 = Table('other', columns=[Column('x', 'int')])
         db.add(t1)
         db.add(t2)
@@ -216,8 +224,35 @@ def api_table_names(i):
     def body(a):
         return _roundtrip(build(a))
 
-    return Harness(body, [('schema', 'bool'), ('alias', 'bool'), ('inline', 'bool')],
+    return Harness(body, [('schema', 'bool'), ('alias', IntRange(0, 2)), ('inline', 'bool')],
                    describe=lambda a: dict(_rt_detail(build(a)), name=TABLE_NAMES[i]), bounds={'name': TABLE_NAMES[i]})
+
+
+CRIT = Enum("a\n' \\")
+
+
+def api_note(site, K=3):
+    """API-built note texts over the critical alphabet (letters, newline, quote, blank, backslash), in normal form"""
+    def build(a):
+        from pydbml import Database
+        from pydbml.classes import Table, Column, Project, StickyNote, TableGroup, Note
+        from oracle.norm import norm
+        txt = norm(text_of(a, 't', K))
+        db = Database()
+        t = Table('t', columns=[Column('c', 'int')], note=txt if site == 'table' else None)
+        db.add(t)
+        if site == 'sticky':
+            db.add(StickyNote('n1', txt))
+        elif site == 'project':
+            db.add(Project('p', note=txt))
+        elif site == 'group':
+            db.add(TableGroup('g', [t], note=Note(txt)))
+        return db
+
+    def body(a):
+        return _roundtrip(build(a))
+
+    return Harness(body, hole_args('t', K, CRIT), describe=lambda a: dict(_rt_detail(build(a)), site=site), bounds={'site': site, 'K': K})
 
 
 DEFAULTS = ['none', 'int', 'float', 'true', 'str', 'expr', 'NULL', 'zero', 'false', 'empty']
@@ -281,6 +316,8 @@ def instances(tier):
         add(f'api/names/{which}/K{1 if quick else 2}', 'api_names', {'K': 1 if quick else 2, 'which': which}, T1)
     for i in range(len(TABLE_NAMES)):
         add(f'api/table_names/{i}', 'api_table_names', {'i': i}, T1)
+    for site in ('table', 'sticky', 'project', 'group'):
+        add(f'api/note/{site}/K{3 if quick else 4}', 'api_note', {'site': site, 'K': 3 if quick else 4}, T1)
     fixes = [{'pk': True, 'un': False}, {'pk': False, 'un': True}]
     for j, dk in enumerate(DEFAULTS):
         vac = ['c02_falsy_default_dropped'] if dk in ('zero', 'false', 'empty') else []
